@@ -317,3 +317,14 @@ package common
 //@   opt noalloc
 //@   ensures (err != nil) == state_domain_err(state, dom, messageEpoch)
 //@   ensures err == nil ==> d == state_domain(state, dom, messageEpoch)
+
+// ---------------------------------------------------------------- sync committee subnets (C07, C12)
+// compute_subnets_for_sync_committee: the subnet of position i is i / (SYNC_COMMITTEE_SIZE / SYNC_COMMITTEE_SUBNET_COUNT)
+//@ func (isc *IndexedSyncCommittee) InSubnet(spec, valIndex, subnet) r
+//@   property C07 C12
+//@   opt noalloc
+//@   requires isc != nil && spec != nil && spec.SYNC_COMMITTEE_SIZE / SYNC_COMMITTEE_SUBNET_COUNT != 0
+//@   ensures yes: r ==> (exists i :: 0 <= i && i < len(isc.Indices) && isc.Indices[i] == valIndex && i / (spec.SYNC_COMMITTEE_SIZE / SYNC_COMMITTEE_SUBNET_COUNT) == subnet)
+//@   ensures no: !r ==> (forall i :: {isc.Indices[i]} 0 <= i && i < len(isc.Indices) ==> !(isc.Indices[i] == valIndex && i / (spec.SYNC_COMMITTEE_SIZE / SYNC_COMMITTEE_SUBNET_COUNT) == subnet))
+//@   loop 1
+//@     invariant forall i :: {isc.Indices[i]} 0 <= i && i <= rangeindex ==> !(isc.Indices[i] == valIndex && i / (spec.SYNC_COMMITTEE_SIZE / SYNC_COMMITTEE_SUBNET_COUNT) == subnet)
